@@ -2,6 +2,7 @@
 from __future__ import annotations
 
 import itertools
+import json
 import os
 import random
 import shutil
@@ -364,6 +365,85 @@ def positional_path_case():
         shutil.rmtree(tmp, ignore_errors=True)
 
 
+_FRESH = r"""
+import json, os, sys
+import pandas, pygaps, pygaps.parsing.sqlite as S
+pygaps.logger.disabled = True
+db, what = sys.argv[1], sys.argv[2]
+common = dict(adsorbate='nitrogen', temperature=77.355)
+if what == 'upload':
+    isos = {
+        'material_with_properties': pygaps.PointIsotherm(pressure=[1, 2, 3], loading=[1, 2, 3], material={'name': 'pgv_fp_m', 'density': 2.0, 'batch': 'b1'}, **common),
+        'relative_pressure_no_unit': pygaps.PointIsotherm(pressure=[.1, .2, .3], loading=[1, 2, 3], material='pgv_fp_q', pressure_mode='relative', pressure_unit=None, **common),
+        'fraction_loading_no_unit': pygaps.PointIsotherm(pressure=[1, 2, 3], loading=[.1, .2, .3], material='pgv_fp_q', loading_basis='fraction', loading_unit=None, **common),
+        'integer_and_text_columns': pygaps.PointIsotherm(isotherm_data=pandas.DataFrame({'pressure': [1., 2, 3], 'loading': [1., 2, 3], 'cycle': [1, 1, 2], 'tag': ['a', 'b', 'c']}),
+                                                         pressure_key='pressure', loading_key='loading', material='pgv_fp_q', **common),
+    }
+    out = {}
+    for k, i in isos.items():
+        try:
+            S.isotherm_to_db(i, db_path=db, verbose=False)
+            out[k] = i.iso_id
+        except Exception as exc:
+            out[k] = 'upload failed: ' + type(exc).__name__ + ': ' + str(exc)[:80]
+    print(json.dumps(out))
+else:
+    got = S.isotherms_from_db(db_path=db, verbose=False)
+    out = {'ids': [g.iso_id for g in got], 'deleted': []}
+    for g in got:
+        try:
+            S.isotherm_delete_db(g, db_path=db, verbose=False)
+            out['deleted'].append(g.iso_id)
+        except Exception as exc:
+            out.setdefault('delete_errors', []).append(type(exc).__name__ + ': ' + str(exc)[:80])
+    out['left'] = len(S.isotherms_from_db(db_path=db, verbose=False))
+    print(json.dumps(out))
+"""
+
+
+def fresh_process_cases():
+    """isotherms uploaded in one process and retrieved in another (a session that has never seen their materials): each comes back
+    with the identifier it was stored under and can be deleted through the retrieved object -- the outcome depends on the file only.
+    The set includes isotherms without a pressure / loading unit and with integer and text columns."""
+    import subprocess
+    import sys
+    tmp = tempfile.mkdtemp(prefix='pgv-c08f-')
+    try:
+        db = os.path.join(tmp, 'fresh.db')
+        shutil.copyfile(empty_template(tmp), db)
+        root = os.path.dirname(os.path.dirname(os.path.dirname(os.path.abspath(__file__))))
+        env = dict(os.environ, PYTHONPATH=f"{os.environ.get('PGV_REPO', '/repo')}/src:{root}")
+
+        def run(what):
+            p = subprocess.run([sys.executable, '-c', _FRESH, db, what], capture_output=True, text=True, env=env, timeout=300)
+            try:
+                return json.loads(p.stdout.strip().splitlines()[-1])
+            except Exception:
+                return {'error': (p.stderr or p.stdout)[-300:]}
+        up = run('upload')
+        back = run('retrieve')
+        for k, v in up.items() if 'error' not in up else []:
+            if v.startswith('upload failed'):
+                yield {'name': f"fresh_process|{k}", 'ok': False, 'detail': v, 'ops': None}
+                continue
+            probs = []
+            if v not in back.get('ids', []):
+                probs.append(f"stored as {v}, retrieved identifiers {back.get('ids')}")
+            elif v not in back.get('deleted', []):
+                probs.append(f"could not be deleted through the retrieved isotherm: {back.get('delete_errors')}")
+            yield {'name': f"fresh_process|{k}", 'ok': not probs, 'detail': '; '.join(probs), 'ops': None}
+        if 'error' in up or 'error' in back:
+            yield {'name': 'fresh_process|harness', 'ok': False, 'detail': str(up.get('error') or back.get('error')), 'ops': None}
+    finally:
+        shutil.rmtree(tmp, ignore_errors=True)
+
+
+@replayer('c08.fresh')
+def _fresh(spec, model):
+    bad = [r for r in fresh_process_cases() if not r['ok']]
+    return {'confirmed': bool(bad), 'observed': [(b['name'], b['detail']) for b in bad], 'expected': 'same identifier in a fresh process; deletable through the retrieved isotherm'}
+
+
 @replayer('c08.positional')
 def _positional(spec, model):
     r = positional_path_case()
@@ -387,6 +467,7 @@ def history_cases(seed, thorough=False):
     yield bulk_case(260 if thorough else 130)
     yield from value_type_cases()
     yield positional_path_case()
+    yield from fresh_process_cases()
     hs, two = histories(seed, thorough)
     items = [(1, h) for h in hs] + [(2, h) for h in two]
     res, crashes = par.pmap(run_chunk, par.chunks(items, 32))
